@@ -13,7 +13,7 @@ def outcome_of_exception(e):
 
 
 async def one_exchange(client, url, method, peer, resp_index, settle_iterations=STALL_ITERATIONS,
-                       on_session=None, post_body=None):
+                       on_session=None, post_body=None, real_time_wait=None):
     from wpull.protocol.http.request import Request
     from wpull.body import Body
     out = {'error': None, 'phase': None}
@@ -48,6 +48,12 @@ async def one_exchange(client, url, method, peer, resp_index, settle_iterations=
         if peer.feed_done.get(resp_index):
             idle += 1
             if idle > settle_iterations:
+                if real_time_wait:
+                    # the peer went silent on purpose: the client's own (wall-clock) read timeout has to end the exchange
+                    try:
+                        await asyncio.wait_for(asyncio.shield(task), real_time_wait)
+                    except BaseException:
+                        pass
                 break
     if not task.done():
         task.cancel()
@@ -70,7 +76,7 @@ async def one_exchange(client, url, method, peer, resp_index, settle_iterations=
 
 
 def run_sequence(responses, host='h.test', port=80, scheme='http', recorder_setup=None, settle=12,
-                 client_kwargs=None, per_exchange_hook=None):
+                 client_kwargs=None, per_exchange_hook=None, read_timeout=None):
     '''responses: list of dicts with 'pieces', 'then', 'method'.  Returns (outcomes, peer, net).'''
     from wpull.network.pool import ConnectionPool
     from wpull.protocol.http.client import Client
@@ -80,7 +86,13 @@ def run_sequence(responses, host='h.test', port=80, scheme='http', recorder_setu
         try:
             peer = netsim.HTTPScriptPeer(responses, settle=settle)
             net.add_peer('127.0.0.1', port, peer)
-            pool = ConnectionPool(resolver=netsim.StaticResolver())
+            if read_timeout:
+                import functools
+                from wpull.network.connection import Connection
+                pool = ConnectionPool(resolver=netsim.StaticResolver(),
+                                      connection_factory=functools.partial(Connection, timeout=read_timeout))
+            else:
+                pool = ConnectionPool(resolver=netsim.StaticResolver())
             client = Client(connection_pool=pool, **(client_kwargs or {}))
             teardown = None
             if recorder_setup:
@@ -89,7 +101,8 @@ def run_sequence(responses, host='h.test', port=80, scheme='http', recorder_setu
             for i, resp in enumerate(responses):
                 url = resp.get('url') or '{}://{}{}/r{}'.format(
                     scheme, host, '' if port in (80, 443) else ':%d' % port, i)
-                out = await one_exchange(client, url, resp.get('method', 'GET'), peer, i, post_body=resp.get('post_body'))
+                out = await one_exchange(client, url, resp.get('method', 'GET'), peer, i, post_body=resp.get('post_body'),
+                                         real_time_wait=(read_timeout * 8 + 1) if read_timeout and resp.get('then') == 'hang' else None)
                 out['url'] = url
                 conn_ids = [c for c, idx in peer.served if idx == i]
                 out['conn_id'] = conn_ids[0] if conn_ids else None
